@@ -128,11 +128,15 @@ CLAIMED.update({
     "C14": dict(
         category="exploration", design_ref="DESIGN.md 5 (C14)",
         technique="TLA+ function-style reference semantics Policy.tla: (policy, route) cases enumerated by TLC with the required "
-                  "outcome, each evaluated by the real PolicyTable + apply_import at three address embeddings; panics are violations",
+                  "outcome, each evaluated by the real PolicyTable + apply_import at three address embeddings; PolicyStore.tla "
+                  "(state machine of every add/replace/delete call, invariant NoDivergence checked exhaustively by TLC) whose random "
+                  "behaviours are replayed on the real PolicyTable with result, listing, held-copy identity and live evaluation "
+                  "compared after every call; panics are violations",
         text="Every condition of the catalogue against every route of the bounded universe, and 72 two-statement policies for "
              "ordering / accumulation / default, are enumerated completely by TLC together with the outcome the reference semantics "
-             "requires; the real evaluation is compared case by case.  The clause about deleting / changing referenced objects "
-             "(policy store CRUD) is NOT covered by this check.",
+             "requires; the real evaluation is compared case by case.  The store half is checked exhaustively in the model (138k "
+             "states) and by random model behaviours (900 x 40 calls in the quick tier) replayed on the real store for each of the "
+             "six defined-set kinds and three pairs of kinds.",
         note="Trusted: the transcription of the statement into Policy.tla (sanity-checked by TLC); only prefix / AS-path / community "
              "/ AS-path-length conditions and set-LOCAL_PREF / add-community actions are in the catalogue."),
 })
